@@ -81,7 +81,7 @@ int main(int argc, char **argv) {
         int i = 0, v = 0;
         if (!strncmp(line, "reset", 5)) {
             if (V) {
-                lk0 = vh_locks - vh_unlocks;
+                lk0 = VH_LOCK_BALANCE();
                 V->free(V);
                 int cok = check_kept();
                 vh_emit("{\"op\":\"free\",\"i\":0,\"v\":0,\"live\":%ld,\"copies_ok\":%s,\"lkd\":%ld}", vh_live_since(mark), vh_bool(cok), 0L);
@@ -119,7 +119,7 @@ int main(int argc, char **argv) {
             unsigned char *arg = vh_malloc(OBJ);
             mk(arg, v);
             int ok = 1, rv = 0; void *p = NULL; size_t asz = 0; void *arr = NULL;
-            long lkb = vh_locks - vh_unlocks, ovb = vh_overlap_copies, bfb = vh_badfree;
+            long lkb = VH_LOCK_BALANCE(), ovb = vh_overlap_copies, bfb = vh_badfree;
             int narr = -1; static int arrids[8192];
             vh_watchdog(6);
             errno = 0;
@@ -181,7 +181,7 @@ int main(int argc, char **argv) {
             size_t n = V->num;
             if (n > 4096) n = 4096;
             for (size_t j = 0; j < n; j++) vh_bprintf(&b, "%s%d", j ? "," : "", V->objsize == OBJ ? idof((unsigned char *) V->data + j * OBJ) : -1);
-            vh_bprintf(&b, "],\"cap\":%zu,\"lkd\":%ld,\"ovl\":%ld,\"bf\":%ld}", V->max, (vh_locks - vh_unlocks) - lkb,
+            vh_bprintf(&b, "],\"cap\":%zu,\"lkd\":%ld,\"ovl\":%ld,\"bf\":%ld}", V->max, VH_LOCK_BALANCE() - lkb,
                        vh_overlap_copies - ovb, vh_badfree - bfb);
             vh_bflush(&b);
             if (!inject || nfail == 0 || ok ) break;     /* completed (normally or despite the failure) */
